@@ -52,8 +52,11 @@ def cigar(draw):
 def strategy_(draw, tier):
     nreads = draw(st.integers(1, 8))
     lines = []
+    special = draw(st.integers(0, 4)) == 0
     for r in range(nreads):
         name = "read%d" % r
+        if special and r < 2:
+            name = ("plumless", "buckeroo")[r]  # two names with the same CRC-32: tables must be keyed by the name itself
         comment = draw(st.sampled_from(["", "", " runid=abc ch=4", " 1:N:0"]))
         qlen = draw(st.integers(60, 400))
         for k in range(draw(st.integers(1, 4))):
